@@ -13,9 +13,9 @@ from .frame_common import BLOCK_UNIT
 
 def check_state_for_iface(rep, prog, rule):
     ix = prog.unit(BLOCK_UNIT)
-    if 'lltd_state_for_iface' not in ix.functions:
-        raise AnalysisBroken('anchor lltd_state_for_iface vanished')
-    fn = ix.functions['lltd_state_for_iface']
+    from .frame_common import state_lookup_name
+    LOOKUP = state_lookup_name(prog)       # identified by its role (called from parseFrame, returns the record), not by its name
+    fn = ix.functions[LOOKUP]
     srec = ix.parse_type('lltd_iface_state').rec
     ctx_off, next_off = srec.field('iface_ctx')[1], srec.field('next')[1]
 
@@ -28,10 +28,10 @@ def check_state_for_iface(rep, prog, rule):
         st.tags['known_globals'] = ('g:g_iface_states',)
         return [Val(ix.parse_type('void *'), ('ptr', 'ext:ctx', ZERO))]
     from ..engine import Engine
-    E = Engine(prog, port=PortModel(), entry_name='lltd_state_for_iface')
+    E = Engine(prog, port=PortModel(), entry_name=LOOKUP)
     E.loop_info = {}
     E.keep_iter_states = True
-    I, outs = run_entry(prog, BLOCK_UNIT, 'lltd_state_for_iface', setup, engine=E, name='lltd_state_for_iface')
+    I, outs = run_entry(prog, BLOCK_UNIT, LOOKUP, setup, engine=E, name=LOOKUP)
     want_ctx = ('ptr', 'ext:ctx', ZERO)
 
     def knows_key(s2):
@@ -45,8 +45,8 @@ def check_state_for_iface(rep, prog, rule):
         if t == ZERO:
             kinds['null'] += 1
             failed = any(e[0] == 'malloc-failed' for e in st.trace)
-            rep.check(failed, rule, 'state_for_iface|null', 'lltd_state_for_iface returns NULL without an allocation failure',
-                      node=fn, function='lltd_state_for_iface')
+            rep.check(failed, rule, 'state_for_iface|null', '%s returns NULL without an allocation failure' % LOOKUP,
+                      node=fn, function=LOOKUP)
         elif t[0] == 'ptr' and t[1] == 'RECS':
             kinds['found'] += 1
             # the hit must rest on the record's context having been compared equal to the caller's
@@ -54,7 +54,7 @@ def check_state_for_iface(rep, prog, rule):
             # (the final state may have lost the equality where hits at different list positions were merged)
             ok = knows_key(st) or early_ok
             rep.check(ok, rule, 'state_for_iface|hit-key', 'the lookup returns a record without its context having been compared equal to the caller\'s context '
-                      '(another interface\'s state could be handed out)', node=fn, function='lltd_state_for_iface')
+                      '(another interface\'s state could be handed out)', node=fn, function=LOOKUP)
         elif t[0] == 'ptr' and st.objs.get(t[1]) is not None and st.objs[t[1]].heap:
             kinds['fresh'] += 1
             o = st.objs[t[1]]
@@ -68,20 +68,20 @@ def check_state_for_iface(rep, prog, rule):
                     okz = False
                     bad.append(off)
             rep.check(okz and st.prove_le(C(srec.size), o.size), rule, 'state_for_iface|zero',
-                      'a freshly created interface record is not fully zero-initialised (bytes %s)' % bad[:8], node=fn, function='lltd_state_for_iface',
+                      'a freshly created interface record is not fully zero-initialised (bytes %s)' % bad[:8], node=fn, function=LOOKUP,
                       sample={'fresh_record_bytes_zero': srec.size - 16})
             c = st.canon(mem.load_scalar(st, o, C(ctx_off), ix.parse_type('void *')))
             rep.check(c == ('ptr', 'ext:ctx', ZERO), rule, 'state_for_iface|ctx', 'fresh record is keyed by %s, not by the caller\'s context' % short(c),
-                      node=fn, function='lltd_state_for_iface')
+                      node=fn, function=LOOKUP)
             g = st.canon(mem.load_scalar(st, st.objs['g:g_iface_states'], ZERO, ix.parse_type('void *')))
-            rep.check(g == t, rule, 'state_for_iface|link', 'fresh record is not linked into the list head', node=fn, function='lltd_state_for_iface')
+            rep.check(g == t, rule, 'state_for_iface|link', 'fresh record is not linked into the list head', node=fn, function=LOOKUP)
         else:
-            rep.fail(rule, 'state_for_iface|ret', 'lltd_state_for_iface returns %s' % short(t), node=fn, function='lltd_state_for_iface')
+            rep.fail(rule, 'state_for_iface|ret', '%s returns %s' % (LOOKUP, short(t)), node=fn, function=LOOKUP)
     for k, n in kinds.items():
         if n == 0:
-            rep.fail(rule, 'state_for_iface|paths|' + k, 'lltd_state_for_iface has no "%s" outcome (lookup hit / allocation failure / fresh record expected)' % k,
-                     node=fn, function='lltd_state_for_iface')
+            rep.fail(rule, 'state_for_iface|paths|' + k, '%s has no "%s" outcome (lookup hit / allocation failure / fresh record expected)' % (LOOKUP, k),
+                     node=fn, function=LOOKUP)
     for ob in I.obs.values():
         if not ob.ok:
-            rep.fail(rule + '.ub', 'lltd_state_for_iface|%s' % ob.kind, ob.msg, node=ob.node, function=ob.fn)
+            rep.fail(rule + '.ub', 'state_for_iface|%s' % ob.kind, ob.msg, node=ob.node, function=ob.fn)
     return kinds
